@@ -13,7 +13,10 @@ LEVEL_TEXT = ('Generated Linen module programs (compact/setup, depth <= 3, expli
               'rules; apply(init vars) is compared with init_with_output, every root-level sub-module is applied standalone on its own '
               'subtree and compared with its contribution inside the parent, bind/unbind round-trips, every single-parameter deletion '
               'and reshape must raise, all three name-clash kinds must raise NameInUseError, and eval_shape / lazy_init / jit(init) must '
-              'give the same structure, shapes and dtypes as concrete init.')
+              'give the same structure, shapes and dtypes as concrete init.'
+              ' Further streams: every pair of clashing declaration kinds, re-entrant compact methods, share_scope, one'
+              ' instance fed inputs of different widths, setup members clashing with later compact calls, shared'
+              ' instances through bind/unbind/clone/copy, compact_name_scope methods of sub-modules.')
 LEVEL_NOTE = ('The reference interpreter in vf/gen/linen_prog.py encodes the documented naming rules and is trusted; RNG-using children are '
               'excluded from the standalone comparison (their keys are position-addressed by design, C09).')
 TECHNIQUE = 'runtime monitoring: reference-model (naming/shape interpreter) + relational oracles + single-edit fault enumeration on the real init/apply'
